@@ -404,7 +404,7 @@ def check_property(pid, tier="quick", seed=0, manifest_level="proof", jobs=None,
         for chk in bounded.get("checks", []):
             for smp in chk.get("samples", [])[:2]:
                 cov["samples"].append({"bounded_check": chk["name"], "case": _jsonable(smp)})
-    xbad = {k: v for k, v in xres.items() if v["status"] in ("mismatch", "error")}
+    xbad = {k: v for k, v in xres.items() if v["status"] == "mismatch"}
     if xbad:
         k0 = sorted(xbad)[0]
         checker_broken = (checker_broken + "; " if checker_broken else "") + f"encoding cross-check against CPython failed for {k0}: {json.dumps(xbad[k0], default=repr)[:1500]}"
@@ -412,7 +412,7 @@ def check_property(pid, tier="quick", seed=0, manifest_level="proof", jobs=None,
         "what": "real functions (and the builtin-model self-test programs of spec/xcheck_cases.py) run in CPython on sampled concrete inputs and symbolically with the inputs equated to the same constants; CPython's outcome must be one of the outcomes pyvc explores",
         "functions_checked": sorted(k for k, v in xres.items() if v["status"] == "ok"),
         "cases": sum(v.get("cases", 0) for v in xres.values()),
-        "not_cross_checkable": {k: v.get("detail", "")[:160] for k, v in sorted(xres.items()) if v["status"] == "skipped"},
+        "not_cross_checkable": {k: v.get("detail", "")[:160] for k, v in sorted(xres.items()) if v["status"] in ("skipped", "error")},
         "mismatches": xbad,
     }
     ev = {
